@@ -2,6 +2,7 @@ package slcheck
 
 import (
 	"fmt"
+	"os"
 	"sync"
 	"testing"
 	"unsafe"
@@ -83,8 +84,9 @@ func TestC15(t *testing.T) {
 		seekKey := rapid.IntRange(-2, maxKey+2).Draw(t, "seekkey")
 		refresh := []int{0, 1, 2, 3}[rapid.IntRange(0, 3).Draw(t, "refresh")]
 		pauseAt := rapid.IntRange(-1, 6).Draw(t, "pauseat")
+		manualRefreshAt := rapid.IntRange(-1, 6).Draw(t, "manualrefreshat") // explicit Refresh() after the n-th item was consumed
 		picker, pdesc := sched.DrawPicker(t, nmut+1, 500)
-		f.logf("c15 mm=%v stable=%d pre=%v mut=%v seek=%v/%d refresh=%d pause@%d sched=%s", mm, nstable, pre, mscripts, useSeek, seekKey, refresh, pauseAt, pdesc)
+		f.logf("c15 mm=%v stable=%d pre=%v mut=%v seek=%v/%d refresh=%d pause@%d manualrefresh@%d sched=%s", mm, nstable, pre, mscripts, useSeek, seekKey, refresh, pauseAt, manualRefreshAt, pdesc)
 
 		s := sched.New(picker)
 		w.s = s
@@ -115,6 +117,9 @@ func TestC15(t *testing.T) {
 					panic(fmt.Sprintf("STALE-NODE: iterator stands on node of key %d which has been freed", k))
 				}
 				gets = append(gets, getRec{k, s.Tick(), arrive})
+				if os.Getenv("C15DBG") != "" {
+					fmt.Printf("C15DBG reader get %d node=%p at %d\n", k, it.GetNode(), s.Clock)
+				}
 				readerCur = k
 				if n == pauseAt {
 					it.Pause()
@@ -132,6 +137,10 @@ func TestC15(t *testing.T) {
 					}
 				}
 				s.Yield(0)
+				if n == manualRefreshAt {
+					it.Refresh()
+					s.Yield(0)
+				}
 				arrive = s.Tick()
 				it.Next()
 				n++
@@ -190,6 +199,9 @@ func TestC15(t *testing.T) {
 					}
 					th.InOp = false
 					rec.ret = s.Tick()
+					if os.Getenv("C15DBG") != "" {
+						fmt.Printf("C15DBG T%d %+v level=%d\n", th.ID, rec, o.level)
+					}
 					if rec.ok && !o.insert && (k == readerCur || k == readerCur-1) && scanStart > 0 && scanEnd == 0 {
 						cursorDeleted = true
 					}
